@@ -70,7 +70,7 @@ def _run_bounded(args):
     modname, bid, tier, seed = args
     try:
         mod = importlib.import_module(modname)
-        b = next(b for b in mod.BOUNDED if b.id == bid)
+        b = next(b for b in list(getattr(mod, 'BOUNDED', [])) + list(getattr(mod, 'GROUND', [])) if b.id == bid)
         t0 = time.time()
         r = b.run(tier, seed)
         r['id'] = bid
@@ -235,8 +235,11 @@ def main(argv=None):
         blk['failures'] = len(r.get('failures', []))
         bound_block.append(blk)
     for r in gresults:
-        n_obl += r.get('obligations', 0)
-        n_dis += r.get('discharged', 0)
+        # a finite (ground) obligation set counts as ONE obligation, discharged iff every
+        # enumerated instance held; the instance counts stay inside the 'ground' block
+        n_obl += 1
+        n_dis += 1 if (not r.get('failures') and r.get('status') != 'error' and r.get('obligations', 0) > 0
+                       and r.get('obligations') == r.get('discharged')) else 0
     if errors and exit_code == 0:
         exit_code = 3
     elif undecided and exit_code == 0:
